@@ -22,7 +22,6 @@ ASSUMPTIONS = [
     'slice_lsb without match_address_msb is not generated (meaning not stated)',
     'relative targets outside GLOBAL are not asserted (the property does not say whether the target must be an address)',
     'min/max keys of an indirect-register offset are not a listed constraint and are not generated',
-    'a numeric_enumeration operand never begins with a quoted-character literal',
 ]
 BUDGET = {'quick': 4000, 'thorough': 200000}
 LEVEL_TEXT = ('Exploration focused on boundaries: every generated configuration is probed exactly at and next to each '
@@ -139,7 +138,7 @@ def _cases(draw, tier):
         op = dict(dummy)
         for k in ('r', 'off', 'sign', 'deco'):
             op.pop(k)
-        op['e'] = isagen.value_ast(draw, v, consts, simple=simple, allow_chr=(kind != 'numeric_enumeration'))
+        op['e'] = isagen.value_ast(draw, v, consts, simple=simple, allow_chr=True)
     return {'isa': cfg, 'address': address, 'op': op, 'value': v, 'tag': tag, 'consts': consts, 'size': size,
             'fill': draw(st.sampled_from([0, 0xEE]))}
 
